@@ -1,5 +1,6 @@
 """C05 — reservoir sampling: the index/count calculus of Algorithm R and of gap sampling."""
 from ..paths import PathEnumerator
+from ..guards import fv
 from ..terms import TermBuilder, fmt, mk, const, subterms, linear
 from .common import SELF, self_field
 
@@ -40,13 +41,13 @@ def run(ctx):
         fd = {repr(c): t for c, t in facts}
         if repr(fill) not in fd and repr(fill_len) in fd:
             fd[repr(fill)] = fd[repr(fill_len)]
-        if fd.get(repr(fill)) is True:
+        if fv(fd, fill) is True:
             cls["fill"].append(p)
-        elif fd.get(repr(fill)) is False and fd.get(repr(res_phase)) is True:
+        elif fv(fd, fill) is False and fv(fd, res_phase) is True:
             cls["res"].append(p)
-        elif fd.get(repr(fill)) is False and fd.get(repr(res_phase)) is False and fd.get(repr(gap_guard)) is True:
+        elif fv(fd, fill) is False and fv(fd, res_phase) is False and fv(fd, gap_guard) is True:
             cls["gap-hit"].append(p)
-        elif fd.get(repr(fill)) is False and fd.get(repr(res_phase)) is False and fd.get(repr(gap_guard)) is False:
+        elif fv(fd, fill) is False and fv(fd, res_phase) is False and fv(fd, gap_guard) is False:
             cls["gap-skip"].append(p)
         else:
             cls["other"].append(p)
